@@ -144,7 +144,7 @@ impl Property for C04 {
     }
     fn rule() -> String {
         "Generated: a link as content; 1-4 keys of distinct material (all schemes); a signature list of entries in {genuine, second fresh \
-         signature by the same key, one bit flipped, made by key A but labelled id(B), genuine over different content}; an authorised key \
+         signature by the same key, one bit flipped, made by key A but labelled id(B), genuine over different content - that other block having been verified and accepted earlier in the same process}; an authorised key \
          list with duplicates/subsets/empty; threshold in {0..n+1, u32::MAX}; a permutation of both lists. Enumerated: all configurations for \
          n<=2 keys with <=3 entries over {Valid, BitFlip, Mislabeled}, every authorised subset and threshold 0..3. Oracle: (only-if) Ok => t>=1 \
          and at least t distinct authorised keys have an entry labelled with their id that is a genuine signature by them over this content \
@@ -246,6 +246,20 @@ impl Property for C04 {
             b.block.signatures.push(make_sig(&uid, &bytes));
             auth.push(u);
             o.class("unknown-scheme-key-authorised");
+        }
+        // history: every signature that was made over *different* content has been verified - and
+        // accepted - over that other content earlier in this process
+        if spec.entries.iter().any(|e| matches!(e, Entry::OtherContent(_))) {
+            let mut other = spec.content.clone();
+            other.name.push_str("-other");
+            let other_meta = MetadataWrapper::Link(other.to_lib());
+            for (i, e) in spec.entries.iter().enumerate() {
+                if let Entry::OtherContent(k) = e {
+                    let donor = Metablock { signatures: vec![b.block.signatures[i].clone()], metadata: other_meta.clone() };
+                    let _ = donor.verify(1, [&public(&spec.keys[*k])]);
+                }
+            }
+            o.class("transplanted-signature-verified-over-its-own-content-before");
         }
         let t = spec.threshold;
         let res = b.block.verify(t, auth.iter());
